@@ -54,3 +54,36 @@ Proof. unfold g_xss_cp_rejected, cp_ok. rewrite negb_involutive. lia. Qed.
 
 Lemma link_value_entities : map (map Z.to_N) g_xss_value_entities = value_entities.
 Proof. vm_compute. reflexivity. Qed.
+
+(* class uri_parser: static helpers (Gen_uri.v), the case labels and entity spellings of sub_delims and
+   the test of unreserved (Gen_xss2.v) *)
+From CppcmsV Require Import C04.DefsU gen.Gen_uri.
+Lemma link_uri_isdigit b : b < 256 -> g_uri_isdigit (sch b) = u_digit b.
+Proof.
+  intros H. apply eqb_prop.
+  apply (sweep256 (fun b => eqb (g_uri_isdigit (sch b)) (u_digit b))); [vm_compute; reflexivity|exact H].
+Qed.
+Lemma link_uri_isalpha b : b < 256 -> g_uri_isalpha (sch b) = u_alpha b.
+Proof.
+  intros H. apply eqb_prop.
+  apply (sweep256 (fun b => eqb (g_uri_isalpha (sch b)) (u_alpha b))); [vm_compute; reflexivity|exact H].
+Qed.
+Lemma link_uri_ishex b : b < 256 -> g_uri_ishex (sch b) = u_hex b.
+Proof.
+  intros H. apply eqb_prop.
+  apply (sweep256 (fun b => eqb (g_uri_ishex (sch b)) (u_hex b))); [vm_compute; reflexivity|exact H].
+Qed.
+(* one byte tokens of the model against the source: unreserved; sub_delims = the two words or one of the case labels *)
+Lemma link_uri_unreserved b : b < 256 -> g_uri_unreserved (sch b) = negb (Nat.eqb (unreserved_len [b]) 0).
+Proof.
+  intros H. apply eqb_prop.
+  apply (sweep256 (fun b => eqb (g_uri_unreserved (sch b)) (negb (Nat.eqb (unreserved_len [b]) 0)))); [vm_compute; reflexivity|exact H].
+Qed.
+Lemma link_uri_subdelims b : b < 256 ->
+  existsb (Z.eqb (Z.of_N b)) g_uri_subdelim_chars = negb (Nat.eqb (subdelim_len [b]) 0).
+Proof.
+  intros H. apply eqb_prop.
+  apply (sweep256 (fun b => eqb (existsb (Z.eqb (Z.of_N b)) g_uri_subdelim_chars) (negb (Nat.eqb (subdelim_len [b]) 0)))); [vm_compute; reflexivity|exact H].
+Qed.
+Lemma link_uri_subdelim_words : map (map Z.to_N) g_uri_subdelim_words = [amp_s; apos_s].
+Proof. vm_compute. reflexivity. Qed.
